@@ -62,7 +62,8 @@ def to_tla(o):
     if isinstance(o, dict):
         if not o:
             return "<<>>"
-        return "(" + " @@ ".join("%s :> %s" % (json.dumps(str(k)), to_tla(v)) for k, v in o.items()) + ")"
+        return "(" + " @@ ".join("%s :> %s" % (str(k) if isinstance(k, int) and not isinstance(k, bool) else json.dumps(str(k)), to_tla(v))
+                                 for k, v in o.items()) + ")"
     if o is None:
         return '"null"'
     raise ValueError("to_tla: %r" % (o,))
